@@ -1101,3 +1101,92 @@ def rules(chk: Check) -> None:
     r16_2(chk, G, deriv_terms)
     r16_3(chk, G)
     r16_4(chk)
+    # R16.5: exactness "for every call history": the read-only methods leave the stored coefficients untouched
+    coefficients_not_modified(chk, "R16.5")
+    chk.floor("R16.5", 6)
+
+
+# ---------------------------------------------------------------------------------------------------------------------------------
+# purity: the read-only methods of Polynomial must not modify the stored coefficients (nor the caller's array they alias)
+# ---------------------------------------------------------------------------------------------------------------------------------
+
+NO_COPY_WRAPPERS = {"asarray", "asanyarray", "ascontiguousarray", "atleast_1d", "atleast_2d", "ravel", "reshape", "squeeze", "transpose", "view",
+                    "swapaxes", "moveaxis", "expand_dims", "broadcast_to", "real"}
+INPLACE_METHODS = {"sort", "fill", "resize", "put", "itemset", "partition", "setfield", "byteswap"}
+READ_ONLY_METHODS = ("integrate", "evaluate", "derivative", "matrix", "derivMatrix", "cardinal", "chebyshev", "__getitem__", "__mul__", "__add__",
+                     "__sub__", "__rmul__", "__radd__", "__rsub__", "_findContraction")
+
+
+def coefficients_not_modified(chk: Check, rule: str) -> None:
+    """For every call history `p.integrate(..); p.integrate(..); p.evaluate(..)` to give what each call gives on a fresh object, the methods that
+    only *read* a Polynomial must leave `self.coefficients` untouched.  Alias analysis inside one method: a name is an alias when it is assigned
+    `self.coefficients` directly or through a numpy function / method that does not copy; an augmented assignment to an alias, a subscript store
+    into it, an `out=` argument naming it or an in-place ndarray method on it is a violation."""
+    S = chk.src
+    ci = S.cls("polynomial:Polynomial")
+    n_checked = 0
+    for mname in READ_ONLY_METHODS:
+        fi = ci.methods.get(mname)
+        if fi is None:
+            continue
+        n_checked += 1
+        chk.touch(fi.name)
+
+        def is_alias_expr(e, aliases) -> bool:
+            if isinstance(e, ast.Attribute) and isinstance(e.value, ast.Name) and e.value.id == "self" and e.attr == "coefficients":
+                return True
+            if isinstance(e, ast.Name):
+                return e.id in aliases
+            if isinstance(e, ast.Subscript):
+                # basic slicing gives a view
+                return is_alias_expr(e.value, aliases)
+            if isinstance(e, ast.Call):
+                f = e.func
+                short = f.attr if isinstance(f, ast.Attribute) else (f.id if isinstance(f, ast.Name) else "")
+                if short in NO_COPY_WRAPPERS:
+                    if isinstance(f, ast.Attribute) and isinstance(f.value, ast.Name) and f.value.id in ("np", "numpy"):
+                        return bool(e.args) and is_alias_expr(e.args[0], aliases)
+                    if isinstance(f, ast.Attribute):
+                        return is_alias_expr(f.value, aliases)
+            if isinstance(e, ast.IfExp):
+                return is_alias_expr(e.body, aliases) or is_alias_expr(e.orelse, aliases)
+            return False
+
+        aliases: set[str] = set()
+        changed = True
+        while changed:            # flow-insensitive fixpoint: once an alias, always an alias (sound for "must not modify")
+            changed = False
+            for st in ast.walk(fi.node):
+                if isinstance(st, ast.Assign) and len(st.targets) == 1 and isinstance(st.targets[0], ast.Name) and is_alias_expr(st.value, aliases):
+                    if st.targets[0].id not in aliases:
+                        aliases.add(st.targets[0].id)
+                        changed = True
+                elif isinstance(st, ast.AnnAssign) and st.value is not None and isinstance(st.target, ast.Name) and is_alias_expr(st.value, aliases):
+                    if st.target.id not in aliases:
+                        aliases.add(st.target.id)
+                        changed = True
+        bad = []
+        for st in ast.walk(fi.node):
+            if isinstance(st, ast.AugAssign) and is_alias_expr(st.target, aliases):
+                bad.append((st, f"in-place `{_n(st)[:70]}`"))
+            elif isinstance(st, ast.Assign):
+                for t in st.targets:
+                    if isinstance(t, ast.Subscript) and is_alias_expr(t.value, aliases):
+                        bad.append((st, f"store into `{_n(t)[:60]}`"))
+                    if isinstance(t, ast.Attribute) and isinstance(t.value, ast.Name) and t.value.id == "self" and t.attr == "coefficients":
+                        bad.append((st, "re-assigns self.coefficients"))
+            elif isinstance(st, ast.Call):
+                for k in st.keywords:
+                    if k.arg == "out" and is_alias_expr(k.value, aliases):
+                        bad.append((st, f"out= names the coefficients: `{_n(st)[:70]}`"))
+                f = st.func
+                if isinstance(f, ast.Attribute) and f.attr in INPLACE_METHODS and is_alias_expr(f.value, aliases):
+                    bad.append((st, f"in-place method `{_n(st)[:60]}`"))
+        chk.ob(rule, fi.where(), f"Polynomial.{mname} does not modify the stored coefficients (aliases followed: {sorted(aliases) or 'none'})", not bad,
+               "; ".join(f"line {x.lineno}: {m}" for x, m in bad)[:400], key=f"pure|Polynomial.{mname}")
+    if n_checked < 6:
+        raise AnchorMissing("Polynomial: read-only methods (integrate, evaluate, derivative, matrix ...) not found")
+
+
+def _n(x) -> str:
+    return " ".join(ast.unparse(x).split())
